@@ -489,9 +489,14 @@ def run(tier='quick'):
     seen = set()
     iter_vars = {}
 
+    call_facts = {}
+    pending_u1 = []
+
     def visit(n, facts, func):
         k = n.get('kind')
         key = (locstr(n), (n.get('loc') or [0, 0, 0, 0])[3] if n.get('loc') else 0, k)
+        if k == 'CallExpr':
+            call_facts[id(n)] = frozenset(x for x in facts if isinstance(x, str) and x.startswith('E:'))
         if k == 'CallExpr':
             nm = (strip(children(n)[0]).get('referencedDecl') or {}).get('name')
             if nm in ('memcpy', 'memmove', 'memcmp'):
@@ -567,9 +572,18 @@ def run(tier='quick'):
                 elif p is None:
                     chk.unknown(U1, inst, 'dereferenced expression outside the modelled subset at %s' % locstr(n))
                 else:
-                    chk.violation(U1, '%s|%s' % (_short(func.qualname), p.split(':')[-1]), locstr(n),
-                                  '%s dereferences the optional %s with no dominating test that it holds a value: '
-                                  'undefined behaviour when it is empty' % (_short(func.qualname), p.split(':')[-1]))
+                    pend = None
+                    if '(anon)' in (func.qualname or '') or (func.storage or '') == 'static':
+                        for i_, pr in enumerate(func.params):
+                            pc = '#%s:%s' % (pr.get('id'), pr.get('name'))
+                            if p == pc or p.startswith(pc + '.') or p.startswith(pc + '!'):
+                                pend = (func, i_, p[len(pc):], p, n, inst)
+                    if pend is not None:
+                        pending_u1.append(pend)     # a file-local helper: its callers may guarantee the value
+                    else:
+                        chk.violation(U1, '%s|%s' % (_short(func.qualname), p.split(':')[-1]), locstr(n),
+                                      '%s dereferences the optional %s with no dominating test that it holds a value: '
+                                      'undefined behaviour when it is empty' % (_short(func.qualname), p.split(':')[-1]))
                 return
             if op in ('operator*', 'operator->') and len(c) > 1:
                 p = guards.canon(c[1])
@@ -690,6 +704,33 @@ def run(tier='quick'):
                 if nm in ('find', 'find_if', 'lower_bound', 'upper_bound', 'max_element', 'min_element'):
                     iter_vars[(f.key, '#%s:%s' % (n.get('id'), n.get('name')))] = nm
         guards.walk_with_facts(f, visit)
+
+    # optionals that a file-local helper dereferences without a test of its own: every call of the helper must be
+    # dominated by the test, on the argument it passes (the precondition lives in the callers)
+    callers = {}
+    for f in _functions(prog):
+        for e in cg.edges(f):
+            if e.node.get('kind') == 'CallExpr':
+                for t in e.targets:
+                    callers.setdefault(t.key, []).append((f, e.node))
+    for g, i_, suffix, p, n, inst in pending_u1:
+        cs = callers.get(g.key, [])
+        bad = None
+        for f, c in cs:
+            args = children(c)[1:]
+            pa = guards.canon(args[i_]) if i_ < len(args) else None
+            if pa is None or ('E:' + pa + suffix) not in call_facts.get(id(c), ()):
+                bad = (f, c)
+                break
+        if cs and bad is None:
+            chk.ok(U1, inst + ' (file-local helper: each of its %d call(s) is dominated by the test)' % len(cs), locstr(n))
+        else:
+            chk.violation(U1, '%s|%s' % (_short(g.qualname), p.split(':')[-1]), locstr(n),
+                          '%s dereferences the optional %s with no dominating test that it holds a value%s: '
+                          'undefined behaviour when it is empty' % (
+                              _short(g.qualname), p.split(':')[-1],
+                              '' if bad is None else ', and its caller %s at %s does not test it either' % (
+                                  _short(bad[0].qualname), locstr(bad[1]))))
 
     _uninitialised(prog, cg, chk, U5)
     _throws(prog, cg, chk, U7)
